@@ -78,7 +78,7 @@ impl World {
         let tx = if ctx == "c1" { &self.c1_in } else { &self.c2_in };
         tx.send(ContextMessage::CheckpointBarrier(CheckpointBarrier { checkpoint_id: id, timestamp_ms: 0 })).await.unwrap();
         loop {
-            let a = tokio::time::timeout(std::time::Duration::from_secs(20), self.ack_rx.recv()).await.expect("fence timed out").unwrap();
+            let a = tokio::time::timeout(std::time::Duration::from_secs(60), self.ack_rx.recv()).await.expect("fence timed out").unwrap();
             if a.checkpoint_id == MODEL_BARRIER {
                 if a.context_name == "c1" { self.snap_p = Some(a.engine_checkpoint.events_processed); } else { self.snap_c = Some(a.engine_checkpoint.events_processed); }
                 continue;
@@ -130,7 +130,9 @@ pub fn replay(args: &[String]) {
     let rt = tokio::runtime::Builder::new_multi_thread().worker_threads(2).enable_all().build().unwrap();
     for c in &cases {
         let small = json!({"cap": c["cap"], "hist": c["hist"]});
-        let r = match catch(|| rt.block_on(run_schedule(c))) { Ok(r) => r, Err(p) => { rep.case(&small, true); rep.violation(&["C26", "C27"], &format!("context runtime panicked / fence timed out: {p}"), &small, J::Null, J::Null); continue; } };
+        let first = catch(|| rt.block_on(run_schedule(c)));
+        let first = match first { Err(p) if p.contains("fence timed out") => { rep.count("fence_timeout_retried", 1); catch(|| rt.block_on(run_schedule(c))) } x => x };
+        let r = match first { Ok(r) => r, Err(p) => { rep.case(&small, true); rep.violation(&["C26", "C27"], &format!("context runtime panicked / fence timed out: {p}"), &small, J::Null, J::Null); continue; } };
         let ints = |v: &J| -> Vec<i64> { v.as_array().map(|a| a.iter().map(|x| x.as_i64().unwrap()).collect()).unwrap_or_default() };
         let (st_p, st_c, infl) = (ints(&r["stP"]), ints(&r["stC"]), ints(&r["inflight"]));
         rep.case(&small, !st_c.is_empty());
@@ -190,7 +192,7 @@ async fn run_coord_schedule(c: &J) -> J {
         let tx = if $ctx == "c1" { &w.c1_in } else { &w.c2_in };
         tx.send(ContextMessage::CheckpointBarrier(CheckpointBarrier { checkpoint_id: fence_id, timestamp_ms: 0 })).await.unwrap();
         loop {
-            let a = tokio::time::timeout(std::time::Duration::from_secs(20), w.ack_rx.recv()).await.expect("fence timed out").unwrap();
+            let a = tokio::time::timeout(std::time::Duration::from_secs(60), w.ack_rx.recv()).await.expect("fence timed out").unwrap();
             if a.checkpoint_id < 1000 { if coord_ack.try_send(a).is_err() { ok_sched = false; } continue; }
             if a.checkpoint_id == fence_id && a.context_name == $ctx { break; }
         }
@@ -225,7 +227,9 @@ pub fn coord_replay(args: &[String]) {
     let rt = tokio::runtime::Builder::new_multi_thread().worker_threads(2).enable_all().build().unwrap();
     for c in &cases {
         let small = json!({"cap": c["cap"], "hist": c["hist"]});
-        let r = match catch(|| rt.block_on(run_coord_schedule(c))) { Ok(r) => r, Err(p) => { rep.case(&small, true); rep.violation(&["C27"], &format!("coordinator / context runtime panicked or a fence timed out: {p}"), &small, J::Null, J::Null); continue; } };
+        let first = catch(|| rt.block_on(run_coord_schedule(c)));
+        let first = match first { Err(p) if p.contains("fence timed out") => { rep.count("fence_timeout_retried", 1); catch(|| rt.block_on(run_coord_schedule(c))) } x => x };
+        let r = match first { Ok(r) => r, Err(p) => { rep.case(&small, true); rep.violation(&["C27"], &format!("coordinator / context runtime panicked or a fence timed out: {p}"), &small, J::Null, J::Null); continue; } };
         let real: Vec<(u64, u64, u64)> = r["done"].as_array().unwrap().iter().map(|d| (d["p"].as_u64().unwrap_or(u64::MAX), d["c"].as_u64().unwrap_or(u64::MAX), d["contexts"].as_u64().unwrap())).collect();
         let model: Vec<(u64, u64, u64)> = c["done"].as_array().map(|a| a.iter().map(|d| (d["p"].as_u64().unwrap(), d["c"].as_u64().unwrap(), 2)).collect()).unwrap_or_default();
         rep.case(&small, !model.is_empty());
@@ -268,6 +272,7 @@ pub fn load(args: &[String]) {
         let mut v = vec![]; while let Ok(o) = rx.try_recv() { v.push(o); } v
     });
     let (rf, ra) = collect(reference);
+    let expected = rf.len() + ra.len();
     let r = catch(|| rt.block_on(async {
         let program = varpulis_parser::parse(src).unwrap();
         let (tx0, _r0) = mpsc::channel::<Event>(10);
@@ -277,9 +282,11 @@ pub fn load(args: &[String]) {
         let orch = ContextOrchestrator::build(probe.context_map(), &program, out_tx, (4 * n) as usize).map_err(|e| format!("build: {e}"))?;
         for ev in &events { orch.process(Arc::new(ev.clone())).await.map_err(|e| format!("process: {e}"))?; }
         // wait for quiescence: outputs stop arriving
+        // (until the reference's number of outputs has arrived and nothing follows for 1 s; a shortfall is only believed after 30 s
+        // without any output, so that a starved context thread on a loaded machine is not taken for a loss)
         let mut v = vec![];
         let mut idle = 0;
-        while idle < 40 {
+        while idle < (if v.len() >= expected { 20 } else { 600 }) {
             match tokio::time::timeout(std::time::Duration::from_millis(50), out_rx.recv()).await { Ok(Some(o)) => { v.push(o); idle = 0; } _ => idle += 1 }
         }
         orch.shutdown();
